@@ -18,6 +18,12 @@ def exhaustive(ctx, pid):
         # with client rollbacks, tick (max age) aborts and exclusive pre-emption at any moment:
         # an aborted transaction leaves no visible change
         ctx.tlc_mc("Tran.tla", "Tran_aborts.cfg", timeout=1200)
+    if pid == "C01":
+        # an exclusive schema operation with a duration (AddExcl .. EndExcl): no transaction that
+        # began before it ended commits writes; deviation = cleanEnded forgetting the entry of an
+        # operation in progress when no transaction is active (`<=`)
+        ctx.tlc_mc("Tran.tla", "Tran_excl.cfg" if ctx.thorough() else "Tran_excl_quick.cfg", timeout=1200)
+        ctx.tlc_mc("Tran.tla", "Tran_dev_exclle_quick.cfg", timeout=600, expect_violation="ExclusiveRespected", count=False)
     if ctx.thorough():
         ctx.tlc_mc("Tran.tla", "Tran_thorough.cfg", timeout=2400)
     cfg, inv = DEV[pid]
